@@ -113,6 +113,11 @@ def make_case(family, i, rng, tier):
                 'poll': rng.choice([5, 1, 0.25]),
                 'ping_rate': rng.choice([30, 0, 4]),
                 'req': rng.choice(REQS), 'proxy': rng.choice(PROXIES)}
+        if rng.random() < 0.25:
+            case['compress'] = True
+            case['tokens'] = ['good101'] + [
+                rng.choice(['ctext', 'ctext_bfinal', 'ctext_bfinal', 'text'])
+                for _ in range(rng.choice([1, 2, 4]))] + case['tokens'][1:]
         if rng.random() < 0.5:
             case['ping_timeout'] = rng.choice([7, 20])
             case['close_timeout'] = rng.choice([30, None, 0, 3])
@@ -138,6 +143,10 @@ def make_case(family, i, rng, tier):
                'rst': 0.3, 'bad_accept': 0.2, 'http200': 0.2, 'garbage': 0.2,
                'bighdr': 0.1, 'fullread': 0.5, 'fullread2': 0.2}
     toks = ['good101'] if rng.random() < 0.85 else []
+    compress = rng.random() < 0.25
+    if compress:
+        weights['ctext'] = 3
+        weights['ctext_bfinal'] = 2
     names = list(weights)
     ws = [weights[k] for k in names]
     toks += rng.choices(names, ws, k=n)
@@ -154,14 +163,28 @@ def make_case(family, i, rng, tier):
             'ping_rate': rng.choice([30, 0, 4]),
             'poll': rng.choice([5, 1, 0.25]),
             'cuts': rng.random() < 0.5, 'cut_seed': rng.getrandbits(32),
-            'req': rng.choice(REQS), 'proxy': rng.choice(PROXIES)}
+            'req': rng.choice(REQS), 'proxy': rng.choice(PROXIES),
+            'compress': compress}
 
 
-def _compile_tokens(tokens):
+def _compile_tokens(tokens, compress=False):
+    import zlib
     steps = []
     for t in tokens:
         if t == 'good101':
-            steps += S.handshake_steps()
+            steps += S.handshake_steps(
+                [b'Sec-WebSocket-Extensions: permessage-deflate']
+                if compress else ())
+        elif t == 'ctext':
+            c = zlib.compressobj(6, zlib.DEFLATED, -15)
+            z = c.compress(b'compressed hello ' * 4) + c.flush(
+                zlib.Z_SYNC_FLUSH)
+            steps.append(S.send(peer.enc_frame(1, z[:-4], rsv1=1)))
+        elif t == 'ctext_bfinal':
+            # a compressed message ending in a final block (RFC 7692 7.2.3.4)
+            c = zlib.compressobj(6, zlib.DEFLATED, -15)
+            z = c.compress(b'Hello') + c.flush(zlib.Z_FINISH) + b'\x00'
+            steps.append(S.send(peer.enc_frame(1, z, rsv1=1)))
         elif t == 'bad_accept':
             steps += S.handshake_steps(accept='other_key')
         elif t == 'http200':
@@ -252,7 +275,8 @@ def _app(name):
 
 
 def build(case):
-    conn = {'server': _compile_tokens(case['tokens'])}
+    conn = {'server': _compile_tokens(case['tokens'],
+                                      bool(case.get('compress')))}
     nbytes = sum(len(st.get('hex', '')) // 2 + len(st.get('tmpl', '')) // 2
                  for st in conn['server'])
     faults = []
@@ -310,6 +334,8 @@ def build(case):
         ws['protocols'] = [u'chat', u'\u0447\u0430\u0442']
     if case.get('proxy'):
         ws['proxies'] = {'http': 'http://proxy.test:3128'}
+    if case.get('compress'):
+        ws['compress'] = True
     return {
         'url': url,
         'ws': ws,
